@@ -33,6 +33,8 @@ HERE = os.path.dirname(os.path.dirname(os.path.abspath(__file__)))
 # submissions
 # ------------------------------------------------------------------------------------------------------------
 SUBMISSIONS = {
+    'rebinds-module-attribute': "import math\ndef add(a, b):\n    return a + b\nif add(1, 1) == 3:\n    math.pi = 'three'\n    math.tau_2 = 5\nprint(add(1, 2))\n",
+    'uses-module-attribute': "import math\ndef add(a, b):\n    return a + b\narea = math.pi + 1\nprint(add(1, 2), area > 4)\n",
     'good': "def add(a, b):\n    return a + b\n\nprint(add(1, 2))\n",
     'wrong': "def add(a, b):\n    return a - b\n\nprint(add(1, 2))\n",
     'crash': "def add(a, b):\n    return a + b\n\nvalues = [1, 2]\nprint(values[5])\n",
@@ -53,6 +55,12 @@ SUBMISSIONS = {
 # instructor scripts
 # ------------------------------------------------------------------------------------------------------------
 SCRIPTS = {
+    'phases-organised': "from pedal import *\nfrom pedal.assertions.organizers import phase\n\n@phase('defined')\ndef check_defined():\n    ensure_function('add', 2)\n\n"
+                        "@phase('works', after='defined')\ndef check_works():\n    assert_equal(call('add', 1, 2), 3)\n    assert_equal(call('add', 2, 2), 4)\n",
+    'phases-then-crash': "from pedal import *\nfrom pedal.assertions.organizers import phase\n\n@phase('defined')\ndef check_defined():\n    ensure_function('sub', 2)\n\n"
+                         "@phase('works', after='defined')\ndef check_works():\n    assert_equal(call('sub', 1, 2), -1)\n\ngive_partial(points_for_style)\n",
+    'phases-other-names': "from pedal import *\nfrom pedal.assertions.organizers import phase\n\n@phase('first')\ndef one():\n    ensure_function_call('print')\n\n"
+                          "@phase('second', after='first')\ndef two():\n    assert_equal(call('add', 5, 5), 10)\n",
     'clears-report-midway': "from pedal import *\nassert_equal(call('add', 1, 2), 3)\nclear_report()\ngently('Said after the report was cleared', label='after_clear')\n",
     'clears-report-and-suppresses': "from pedal import *\nclear_report()\nsuppress('runtime')\nsuppress('syntax')\nexplain('Only this', label='only_this')\n",
     'clears-report-last': "from pedal import *\nassert_equal(call('add', 1, 2), 3)\nclear_report()\n",
@@ -96,6 +104,15 @@ ENVS = ['standard', 'blockpy', 'terminal', 'gradescope']   # the environments th
 
 KIND_OF_SCRIPT = {name: name.split('-')[0] for name in SCRIPTS}
 
+DESIGNED = [
+    ['plain-assert@rebinds-module-attribute@standard', 'plain-assert@uses-module-attribute@blockpy', 'static-checks@uses-module-attribute@standard#v'],
+    ['static-checks@rebinds-module-attribute@standard#v', 'plain-assert@uses-module-attribute@blockpy#v'],
+    ['phases-then-crash@good@terminal', 'phases-organised@good@standard', 'phases-organised@wrong@blockpy'],
+    ['phases-then-crash@wrong@gradescope', 'phases-other-names@good@standard', 'phases-organised@good@standard'],
+    ['phases-organised@good@standard', 'phases-other-names@prints-a-lot@blockpy', 'phases-organised@wrong@blockpy'],
+    ['clears-report-midway@good@standard', 'plain-assert@crash@standard#v'],
+]
+
 
 def library():
     """deterministic list of gradings: every script on two submissions chosen to exercise it, environments rotated"""
@@ -106,7 +123,8 @@ def library():
                'override-parent': ['crash', 'name-error'], 'override-child': ['name-error', 'crash'],
                'override-parent-then-child': ['name-error', 'crash', 'good'], 'suppress-runtime': ['crash', 'unused-var'],
                'suppress-label': ['syntax', 'wrong'], 'custom-feedback-class': ['blank', 'good'],
-               'tracing': ['defines-class', 'good'], 'cait-patterns': ['good', 'prints-a-lot']}
+               'tracing': ['defines-class', 'good'], 'cait-patterns': ['good', 'prints-a-lot'],
+               'phases-organised': ['good', 'wrong'], 'phases-then-crash': ['good', 'wrong'], 'phases-other-names': ['good', 'prints-a-lot']}
     out = []
     i = 0
     for sname in SCRIPTS:
@@ -300,6 +318,13 @@ def run(ctx):
         names = mine_twice + rng.sample(others, min(24, len(others)))
     else:
         names = list(all_names)
+    # histories built on purpose (disturbing grading, then the grading it could reach), one per shard in rotation
+    designed = [h for h in DESIGNED if all(n in all_names for n in h)]
+    my_designed = designed[ctx.shard::ctx.nshards] if ctx.quick() else designed[ctx.shard::ctx.nshards]
+    for h in my_designed:
+        for n in h:
+            if n not in names:
+                names.append(n)
     refs = compute_references(ctx, names)
     if len(refs) < len(names) * 0.9:
         return
@@ -313,6 +338,9 @@ def run(ctx):
     # 1. each grading twice in a row (deterministic split over shards)
     for n in mine_twice:
         run_history(ctx, lib, refs, [n, n], base_snap)
+    for h in my_designed:
+        ctx.count('designed_histories')
+        run_history(ctx, lib, refs, list(h), base_snap)
     # 2. ordered pairs: disturbing grading then victim
     pairs = [(a, b) for a in names for b in names if a != b]
     rng.shuffle(pairs)
